@@ -55,9 +55,12 @@ class Body:
         raw['self_ty_raw'] = raw.get('self_ty')
         self.short = None  # set by Program
         self.names = {}  # local -> user variable name
+        self.upvars = {}  # projection (tuple) of a captured variable inside a closure environment -> its name
         for d in raw.get('debug', []):
             if not d['pl']['p']:
                 self.names.setdefault(d['pl']['l'], d['n'])
+            elif d['pl']['l'] == 1:
+                self.upvars[tuple(d['pl']['p'])] = d['n']
         self._dom = None
         self._pdom = None
         self._succ = None
@@ -350,6 +353,17 @@ class Body:
 
     def local_ty(self, l):
         return self.locals[l]['ty']
+
+    def upvar_of(self, pl):
+        """name of the captured variable a place inside the closure environment refers to, or None"""
+        if not isinstance(pl, dict) or pl.get('l') != 1 or not pl.get('p'):
+            return None
+        pp = tuple(pl['p'])
+        for proj, n in self.upvars.items():
+            core = tuple(x for x in proj if x != '*')
+            if tuple(x for x in pp if x != '*')[:len(core)] == core:
+                return n
+        return None
 
     def local_name(self, l):
         return self.names.get(l, '_%d' % l)
